@@ -67,6 +67,8 @@ impl Property {
 
 thread_local! {
     static LAST_PANIC: RefCell<Option<(String, String)>> = const { RefCell::new(None) };
+    /// true while a simulated run is executing under catch_unwind on this thread
+    static IN_RUN: std::cell::Cell<bool> = const { std::cell::Cell::new(false) };
 }
 
 pub fn install_panic_hook() {
@@ -86,6 +88,10 @@ pub fn install_panic_hook() {
         } else {
             "<non-string panic payload>".to_string()
         };
+        if !IN_RUN.with(|f| f.get()) {
+            // a panic of the harness outside any simulated run: never swallow it
+            eprintln!("simio: harness panic at {}: {}", loc, msg);
+        }
         LAST_PANIC.with(|p| *p.borrow_mut() = Some((loc, msg)));
     }));
 }
@@ -109,7 +115,9 @@ pub fn execute(prop: &Property, sc: &Scenario, ch: Choices, keep_trace: bool) ->
     let w = World::new(ch, keep_trace);
     w.sig_mix(crate::choice::fnv1a(sc.name.as_bytes()));
     LAST_PANIC.with(|p| *p.borrow_mut() = None);
+    IN_RUN.with(|f| f.set(true));
     let res = catch_unwind(AssertUnwindSafe(|| (sc.run)(&w)));
+    IN_RUN.with(|f| f.set(false));
     let mut harness_bug = None;
     let verdict = match res {
         Ok(v) => v,
@@ -316,6 +324,8 @@ struct Slot {
 
 pub struct BatchCfg {
     pub seed: u64,
+    /// first run index (normally 0; used by crash isolation)
+    pub from: u64,
     pub runs: u64,
     pub threads: usize,
     pub per_run_digests: bool,
@@ -331,7 +341,7 @@ pub struct BatchOut {
 
 pub fn run_batch(prop: &'static Property, cfg: &BatchCfg) -> BatchOut {
     let table = Arc::new(prop.table());
-    let next = Arc::new(AtomicU64::new(0));
+    let next = Arc::new(AtomicU64::new(cfg.from));
     let t0 = Instant::now();
     let slots: Arc<Vec<Slot>> = Arc::new(
         (0..cfg.threads)
@@ -493,7 +503,8 @@ pub fn minimise(prop: &Property, sc: &Scenario, choices: Vec<u64>, clause: &str,
         if a.len() != b.len() {
             return a.len() < b.len();
         }
-        a.iter().zip(b.iter()).any(|(x, y)| x != y) && a.iter().sum::<u64>() < b.iter().sum::<u64>()
+        a.iter().zip(b.iter()).any(|(x, y)| x != y)
+            && a.iter().map(|x| *x as u128).sum::<u128>() < b.iter().map(|x| *x as u128).sum::<u128>()
     };
     let mut improved = true;
     let mut budget_hit = false;
